@@ -2,6 +2,7 @@ package engines
 
 import (
 	"fmt"
+	"path"
 	"regexp"
 	"strings"
 
@@ -193,7 +194,15 @@ func (e hostsafe) genTree(r *core.PRNG) []core.DiskFile {
 			files[i].Data, _ = e.damageFile(r, files[i].Data)
 		}
 	}
-	switch r.Intn(14) {
+	switch r.Intn(16) {
+	case 8, 9:
+		// one more file in a package directory, sorted before or after the others, whose package
+		// clause is preceded by an operator or another stray token
+		dir := "main"
+		if len(files) > 0 {
+			dir = path.Dir(core.Pick(r, files).Path)
+		}
+		files = append(files, core.DiskFile{Path: dir + "/" + core.Pick(r, []string{"0.go", "00.go", "A.go", "zzz.go", "_.go"}), Data: []byte(core.Pick(r, clausePrefixes) + "package " + core.Pick(r, []string{"main", "x", path.Base(dir), ""}) + "\n" + core.Pick(r, []string{"", "var q = 1\n", "func init() {}\n", "import \"fmt\"\n"}))})
 	case 0:
 		files = append(files, core.DiskFile{Path: "main/x.go/"}) // a directory named x.go
 	case 1:
